@@ -172,3 +172,26 @@ Definition exponent_flat (er ei : Z) (m p : list Z) (north west : option (list n
   let cols := match west with Some l => l | None => seq 0 (length m) end in
   if diag_only then flatG (map (fun i => e i i) rows)
   else flatG (flat_map (fun i => map (fun j => e i j) cols) rows).
+
+(* ---- superoperators and Lindbladians (C04, C05, C10) -------------------------------------- *)
+Definition gfun (m : gmat) : nat -> nat -> G := @fun_of GK m.
+Definition superop_flat (kind d : nat) (a b : gmat) : list Z :=
+  flatM (match kind with
+         | 0 => @commutator GK d a
+         | 1 => @acommutator GK d a
+         | 2 => @left_super GK d a
+         | 3 => @right_super GK d a
+         | _ => @left_right_super GK a b
+         end)
+  ++ [777%Z] ++
+  flatM (@tab_super GK d (match kind with
+         | 0 => fun i j k l => gsub (@ls_f GK (gfun a) i j k l) (@rs_f GK (gfun a) i j k l)
+         | 1 => fun i j k l => gadd (@ls_f GK (gfun a) i j k l) (@rs_f GK (gfun a) i j k l)
+         | 2 => @ls_f GK (gfun a)
+         | 3 => @rs_f GK (gfun a)
+         | _ => @lrs_f GK (gfun a) (gfun b)
+         end)).
+(* 2 x Lindbladian *)
+Definition liouv2_flat (d : nat) (h : gmat) (terms : list (Z * gmat)) : list Z :=
+  flatM (@tab_super GK d (@liouv2 GK gconj ((0, 1)%Z : G) d (gfun h)
+           (map (fun t => (((fst t, 0%Z) : G), gfun (snd t))) terms))).
